@@ -9,7 +9,7 @@ use any_vec::traits::{Cloneable, Trait};
 use any_vec::{AnyVec, AnyVecTyped, SatisfyTraits};
 
 use crate::elem::Elem;
-use crate::track::{Track, TrackFence, TrackFixed, TrackGreedy, TrackTight, TrackWarm};
+use crate::track::{Track, TrackFence, TrackFixed, TrackGreedy, TrackKey, TrackTight, TrackWarm};
 use crate::types::CapCall;
 
 #[derive(Clone, Copy, Debug, PartialEq, Eq)]
@@ -27,6 +27,8 @@ pub trait MX: MemBuilder + Default + 'static {
     const RAWPARTS: bool = false;
     /// `expand` promises geometric growth (Heap, Track); TrackTight deliberately does not
     const AMORTISED: bool = true;
+    /// the builder carries an identity: `Clone` makes a new one (TrackKey), so a bitwise duplicate of the builder is recognisable
+    const STATEFUL_BUILDER: bool = false;
     /// backend for auxiliary vectors B / C of an edge
     type Aux: MX;
     fn make() -> Self;
@@ -58,7 +60,9 @@ macro_rules! rawparts_impl {
                 4 => {
                     let dummy = AnyVec::<dyn any_vec::traits::None, Self>::new_in::<T>(Self::make());
                     let mut o = dummy.into_raw_parts();
+                    let o_own = o.clone(); // the dummy's own parts: rebuilt and dropped below (its storage may be a real block)
                     o.clone_from(&p);
+                    drop(unsafe { AnyVec::<dyn any_vec::traits::None, Self>::from_raw_parts(o_own) });
                     let n0 = fails.len();
                     see(&o).check(want, "RawParts::clone_from", fails);
                     if fails.len() == n0 { unsafe { AnyVec::from_raw_parts(o) } } else { unsafe { AnyVec::from_raw_parts(p) } }
@@ -128,6 +132,16 @@ impl MX for TrackWarm {
     type Aux = Track;
     fn make() -> Self { TrackWarm }
     fn name() -> String { "TrackWarm".into() }
+    resizable_impl!();
+}
+
+impl MX for TrackKey {
+    const KIND: BK = BK::Track;
+    const STATEFUL_BUILDER: bool = true;
+    rawparts_impl!();
+    type Aux = Track;
+    fn make() -> Self { TrackKey::default() }
+    fn name() -> String { "TrackKey".into() }
     resizable_impl!();
 }
 
